@@ -7,11 +7,12 @@ open Flatland.C06
 
 def parseKind (s : String) : Except String Kind :=
   match s with
-  | "String" | "Integer" | "Boolean" => pure .scalar
+  | "String" | "Integer" | "Boolean" | "Long" | "Float" | "Decimal" | "DateTime" | "Date" | "Time"
+  | "Constrained" => pure .scalar
   | "Enum" => pure .enum
   | "Ref" => pure .ref
-  | "Dict" => pure .dict
-  | "List" | "Array" => pure .seq
+  | "Dict" | "SparseDict" => pure .dict
+  | "List" | "Array" | "MultiValue" => pure .seq
   | "DateYYYYMMDD" => pure .compound
   | s => throw s!"bad base {s}"
 
